@@ -283,7 +283,7 @@ func runC12(c *Ctx) {
 									}
 									nRet++
 									if kb {
-										ne, de, _ := timeoutFactsAt(ret.Block())
+										ne, de, _ := timeoutFactsAt(p, ret.Block())
 										if !ne || !de {
 											okAll, why = false, "a return of "+FuncName(g)+" answers 'has a timeout' without a non-empty header and a successful decode"
 										}
@@ -310,7 +310,7 @@ func runC12(c *Ctx) {
 						continue
 					}
 					if s, isS := ConstString(cmp.Y); isS && s == "" && cmp.Op == token.NEQ {
-						if call, isCall := strip(cmp.X).(*ssa.Call); isCall && IsCallTo(call, "(net/http.Header).Get") {
+						if fromHeaderGet(p, cmp.X) {
 							nonEmpty = true
 							used = append(used, "header value != \"\"")
 						}
@@ -925,7 +925,15 @@ func runC12CountSpelledInDigits(c *Ctx) {
 			return false
 		}
 		lo, hi := false, false
-		ForEachInstr(fn, func(in ssa.Instruction) {
+		// the comparisons may sit in a closure handed to strings.ContainsFunc / IndexFunc
+		// (refactoring B23_r5)
+		visit := func(f func(ssa.Instruction)) {
+			ForEachInstr(fn, f)
+			for _, an := range fn.AnonFuncs {
+				ForEachInstr(an, f)
+			}
+		}
+		visit(func(in ssa.Instruction) {
 			if b, ok := in.(*ssa.BinOp); ok {
 				for _, op := range []ssa.Value{b.X, b.Y} {
 					if k, isK := ConstInt(op); isK {
@@ -994,14 +1002,14 @@ func runC12CountSpelledInDigits(c *Ctx) {
 
 
 // timeoutFactsAt: at block b, is 'the header value is not empty' known, and 'a decode returned no error'?
-func timeoutFactsAt(b *ssa.BasicBlock) (nonEmpty, decoded bool, used []string) {
+func timeoutFactsAt(p *Prog, b *ssa.BasicBlock) (nonEmpty, decoded bool, used []string) {
 	for _, f := range FactsAt(b) {
 		cmp, ok := f.AsCmp()
 		if !ok {
 			continue
 		}
 		if s, isS := ConstString(cmp.Y); isS && s == "" && cmp.Op == token.NEQ {
-			if call, isCall := strip(cmp.X).(*ssa.Call); isCall && IsCallTo(call, "(net/http.Header).Get") {
+			if fromHeaderGet(p, cmp.X) {
 				nonEmpty = true
 				used = append(used, "header value != \"\"")
 			}
@@ -1016,4 +1024,20 @@ func timeoutFactsAt(b *ssa.BasicBlock) (nonEmpty, decoded bool, used []string) {
 		}
 	}
 	return
+}
+
+
+// fromHeaderGet: v is the value of Header.Get, directly or as the unchanged result of a helper of
+// the shipped packages that reads (and may delete) the header (refactoring B28_r1).
+func fromHeaderGet(p *Prog, v ssa.Value) bool {
+	ls := p.OriginsDeep(v)
+	if len(ls) == 0 {
+		return false
+	}
+	for _, l := range ls {
+		if l.Kind != "call" || !IsCallTo(l.Call, "(net/http.Header).Get") || len(l.Ops) > 0 {
+			return false
+		}
+	}
+	return true
 }
